@@ -4,4 +4,4 @@ p=$(realpath $1); shift
 props="$@"; [ -z "$props" ] && props="C01 C02 C03 C04 C05 C06 C07 C08 C09 C10 C11 C12 C13 C14 C15 C16 C17 C18 C19 C20"
 git -C /repo apply "$p" || exit 2
 for q in $props; do ./check $q quick 2>&1 | grep -v "^KNOWN-FINDING" | cut -c1-220 | head -3; done
-git -C /repo checkout -- .
+git -C /repo checkout -- .; git -C /repo clean -fdq
